@@ -1095,6 +1095,7 @@ pub fn sweeps_for(which: Which, tier: Tier) -> Vec<Sweep> {
             v.push(order_sweep(which, tier, 3));
             v.push(type_group_sweep(which, tier));
             v.push(late_hole_sweep(which, tier));
+            v.push(type_pair_sweep(which, tier));
         }
         Which::C02 => {
             v.push(nested_sweep(which, tier));
@@ -1121,6 +1122,7 @@ pub fn sweeps_for(which: Which, tier: Tier) -> Vec<Sweep> {
             v.push(alias_sweep(which, tier));
             v.push(small_sweep(which, tier));
             v.push(type_group_sweep(which, tier));
+            v.push(type_pair_sweep(which, tier));
         }
         Which::C06 => {
             v.push(nested_sweep(which, tier));
